@@ -268,16 +268,8 @@ def run_pair(rec, op, spec, chunks_list, geom, sname, skw, rng, base_extra=None,
     if cmpm == 'exact':
         d = tol.first_diff_exact(got, refd)
     elif cmpm == 'equal_interval':
+        # same cuts from the same exact global min/max on both backends: labels must be identical
         d = tol.first_diff_exact(got, refd)
-        if d is not None:
-            a = arrays[0].astype('float64'); fin = np.isfinite(a)
-            k = kw['k']; mn, mx = a[fin].min(), a[fin].max(); w = (mx - mn) / k if mx > mn else 1.0
-            t = (a - mn) / w
-            with np.errstate(invalid='ignore'):
-                band = np.abs(t - np.round(t)) < 1e-9 * max(1.0, max(abs(mn), abs(mx)) / w)
-                bad = ~((got == refd) | (np.isnan(got) & np.isnan(refd))) & ~band
-            d = None if not bad.any() else (tuple(int(v) for v in np.argwhere(bad)[0]), 'outside boundary band')
-            if d is None: rec.dc('equal_interval.boundary_band')
     elif cmpm == 'hotspots':
         a32 = arrays[0].astype('float32').astype('float64'); k = spec['kernel']
         gm = np.nanmean(a32); gs = np.nanstd(a32)
